@@ -1006,11 +1006,12 @@ VSdetach(int32 vkey /* IN: vdata key? */)
             if (Hendaccess(vs->aid) == FAIL)
                 HGOTO_ERROR(DFE_INTERNAL, FAIL);
             vs->aid = FAIL;
-
-            /* remove from atom list */
-            if (HAremove_atom(vkey) == NULL)
-                HGOTO_ERROR(DFE_INTERNAL, FAIL);
         } /* end if */
+
+        /* remove from atom list: every VSattach registered an id of its
+           own, so this one is released also when others remain attached */
+        if (HAremove_atom(vkey) == NULL)
+            HGOTO_ERROR(DFE_INTERNAL, FAIL);
 
         /* we are done */
         HGOTO_DONE(SUCCEED);
